@@ -45,6 +45,8 @@ type Step struct {
 	N    int    `json:"n,omitempty"`    // size (tnc-data, write), number of Read calls (read), percent (progress)
 	Seed uint64 `json:"seed,omitempty"` // content seed
 	Text string `json:"text,omitempty"` // event: the control line
+	// write (serial): another goroutine of the application issues commands (VERSION) while the Write runs
+	Concurrent bool `json:"concurrent,omitempty"`
 }
 
 type Case struct {
@@ -73,6 +75,18 @@ type Case struct {
 
 	// conforming, listen: the application calls Accept late. Early > 0 ARQ frames (sizes EarlyN, content from
 	// EarlySeed) are delivered by the TNC after CONNECTED and before Accept is called.
+	// conforming, dial: a second session on the same TNC. The first session ends as generated (optionally with
+	// LateARQ frames after NEWSTATE DISC and/or without a DISCONNECTED line), Stray ARQ-typed frames arrive
+	// while no session exists (the library's control loop documents that ARDOPc sends such frames and drops
+	// them), then the station dials again and the second session's Read must yield exactly the second
+	// session's payloads.
+	SlowWriteUS    int  `json:"slow_write_us,omitempty"` // serial: duration of every host write call
+	Second         bool `json:"second,omitempty"`
+	LateARQ        int  `json:"late_arq,omitempty"`
+	NoDisconnected bool `json:"no_disconnected,omitempty"`
+	Stray          int  `json:"stray,omitempty"`
+	SecondFrames   int  `json:"second_frames,omitempty"`
+
 	Early     int    `json:"early,omitempty"`
 	EarlyN    int    `json:"early_n,omitempty"`
 	EarlySeed uint64 `json:"early_seed,omitempty"`
@@ -137,6 +151,8 @@ type stats struct {
 	readAfterDisc, heldDisc bool
 	postCalls               int
 	early                   bool // ARQ frames were delivered between CONNECTED and a late Accept
+	second                  bool // a second session ran on the same TNC
+	concurrent              bool // commands were issued by another goroutine while a Write was running
 }
 
 // runner holds the state of one executing case.
@@ -243,7 +259,10 @@ func has(l []string, want string) bool {
 // open starts the simulator and opens the TNC through the exported API.
 func (r *runner) open() bool {
 	c := r.c
-	cfg := sim.Config{Sched: c.Sched, Faults: c.Faults, DialScript: c.DialScript, DiscScript: c.DiscScript, HoldDisc: c.HoldDisc}
+	cfg := sim.Config{Sched: c.Sched, Faults: c.Faults, DialScript: c.DialScript, DiscScript: c.DiscScript, HoldDisc: c.HoldDisc, NoDisconnected: c.NoDisconnected, SlowWriteUS: c.SlowWriteUS}
+	for i := 0; i < c.LateARQ; i++ {
+		cfg.LateARQ = append(cfg.LateARQ, content(c.EarlySeed+1000+uint64(i), 20+i))
+	}
 	var err error
 	if c.TCP {
 		var addr string
@@ -538,7 +557,26 @@ func (r *runner) write(st Step) {
 	before := len(r.s.Records())
 	var n int
 	var err error
+	var cmds chan struct{}
+	if st.Concurrent && !r.c.TCP {
+		// the application's other goroutine (status display, keep-alive) talks to the TNC while the Write runs:
+		// command frames and the data frame share the serial line and must not be spliced into each other
+		cmds = make(chan struct{})
+		r.st.concurrent = true
+		go func() {
+			defer close(cmds)
+			harness.Catch(func() {
+				for i := 0; i < 4; i++ {
+					r.tnc.Version()
+				}
+			})
+		}()
+	}
 	r.call("Write", func() { n, err = r.conn.Write(p) })
+	if cmds != nil && !waitDone(cmds) {
+		harness.Record("hang:Version", r.c, "commands issued while a Write was running did not return: "+r.transcript(8)+stacks())
+		harness.ExitHung()
+	}
 	if r.sig != "" {
 		return
 	}
@@ -792,6 +830,39 @@ func (r *runner) end() {
 	})
 }
 
+// secondSession: the station uses the same TNC for another session (serial mode: one ordered stream, so a
+// command round trip is a barrier for everything the TNC sent before it).
+func (r *runner) secondSession() {
+	c := r.c
+	for i := 0; i < c.Stray; i++ {
+		r.s.SendData("ARQ", content(c.EarlySeed+2000+uint64(i), 22+i)) // nobody is connected: must be dropped
+	}
+	r.call("Version", func() { r.tnc.Version() })
+	if r.sig != "" {
+		return
+	}
+	var err error
+	var conn2 net.Conn
+	r.notePTT(c.DialScript...)
+	r.call("Dial", func() { conn2, err = r.tnc.Dial(c.Target) })
+	if r.sig != "" {
+		return
+	}
+	if err != nil || conn2 == nil {
+		r.fail("dial-failed", "second session on the same TNC: the TNC answered ARQCALL with %q but Dial returned %v (transcript: %s)", c.DialScript, err, r.transcript(10))
+		return
+	}
+	r.conn, r.expect, r.got, r.frameEnds = conn2, nil, 0, nil
+	r.st.second = true
+	for i := 0; i < max(1, c.SecondFrames); i++ {
+		r.step(Step{Op: "tnc-data", Typ: "ARQ", N: 24 + 7*i, Seed: c.EarlySeed + 3000 + uint64(i)})
+	}
+	r.readAll()
+	if r.sig == "" {
+		r.end()
+	}
+}
+
 // gid returns the id of the calling goroutine.
 func gid() string {
 	buf := make([]byte, 64)
@@ -977,6 +1048,9 @@ func run(c Case) (sig, msg string, st stats) {
 		if r.sig == "" {
 			r.end()
 		}
+		if r.sig == "" && c.Second && !c.TCP {
+			r.secondSession()
+		}
 	}
 	if r.sig == "" {
 		r.teardown()
@@ -1022,6 +1096,9 @@ func account(c Case, st stats, sig string) {
 	lab(st.bigWrite, "has:write>65535")
 	lab(st.smallBuf, "has:reader-buffer<frame")
 	lab(st.early, "has:data-delivered-before-late-Accept")
+	lab(st.second, "has:second-session-on-the-same-TNC")
+	lab(st.concurrent, "has:commands-from-another-goroutine-during-Write(serial)")
+	lab(st.second && (c.Stray > 0 || c.LateARQ > 0), "has:second-session+stray-or-late-ARQ-frames-between-sessions")
 	lab(st.flushes > 0, "has:flush")
 	lab(st.ptt > 0, "has:ptt")
 	lab(st.events > 0, "has:events")
